@@ -47,12 +47,12 @@ class Ctx:
             x = real(name)
             E = Engine.cur
             if E is not None:
-                # the float64 validation run prefers moderate values (|x| <= 1e6 and, unless zero, |x| >= 1/100): solver models
+                # the float64 validation run prefers moderate values (|x| <= 1000 and, unless zero, |x| >= 1/100): solver models
                 # such as 1e-18 only exercise float overflow.  Preferences never enter a verification condition.
                 import z3
 
                 t = x.t
-                E.soft.append(z3.And(t <= 10**6, t >= -(10**6)))
+                E.soft.append(z3.And(t <= 1000, t >= -1000))
                 E.soft.append(z3.Or(t == 0, t >= z3.RealVal("1/100"), t <= z3.RealVal("-1/100")))
             return x
         v = self.values.get(name, "0") if getattr(self, "missing_as_zero", False) else self.values[name]
